@@ -99,7 +99,7 @@ func handleJcc(params x86genParams, ctx *CodeGenContext) ([]byte, error) {
 		// JMP rel16 (オペコード: e9, オフセット: 2 bytes)
 		// JMP rel32 (オペコード: e9, オフセット: 4 bytes)
 		relativeOffset := destAddr - currentAddr // ジャンプ先までの相対距離
-		offsetSize := getOffsetSize(relativeOffset)
+		offsetSize := getOffsetSize(relativeOffset - 2) // rel8 is measured from the end of the 2-byte short form
 
 		switch offsetSize {
 		case 1:
@@ -194,7 +194,7 @@ func handleJcc(params x86genParams, ctx *CodeGenContext) ([]byte, error) {
 	}
 
 	relativeOffset := destAddr - currentAddr // ジャンプ先までの相対距離を先に計算
-	switch getOffsetSize(relativeOffset) {
+	switch getOffsetSize(relativeOffset - 2) { // rel8 is measured from the end of the 2-byte short form
 	case 1: // rel8
 		// rel8: Opcode (1) + Offset (1) = 2 bytes
 		// オフセットはジャンプ命令の *次の* 命令のアドレスからの相対距離
